@@ -1491,6 +1491,10 @@ M('C19', 'mps2lat_values sorts raw (possibly negative) axes (round-5 seed b)', '
   "            axes = [(ax + A.ndim if ax < 0 else ax) for ax in axes]\n            for ax in reversed(sorted(axes)):", "            for ax in sorted(axes, reverse=True):",
   'GEOM-axes-normalised')
 
+M('C01', 'default new_axes from the position of the group in the argument (round-5 seed b)', NPC,
+  "            first_cl = np.array([cl[0] for cl in combine_legs])\n            new_axes = [(np.sum(non_combined_legs < a) + np.sum(first_cl < a)) for a in first_cl]", "            new_axes = [(np.sum(non_combined_legs < cl[0]) + i) for i, cl in enumerate(combine_legs)]",
+  'AXIS-default-order-free')
+
 # ---------------------------------------------------------------- C16 / C19
 M('C16', 'GMRES restart: relative residual norm used for normalisation (round-3 seed b)', KRY,
   """        self.total_error.append([npc.norm(self.rs[-1]) / self.b_norm])
